@@ -562,6 +562,143 @@ theorem update_from_downlink_Ext_sim (te : TEnv) (p : Plane) (d : Ext) :
     exact key
   · simp [hi]
 
+-- the records of `DF::from_message`, `Plane::from_downlink`, `UpdateFromDownlink<DF>` ----------------------------
+def srtOfT (d : T.Srt) : Srt :=
+  { df := d.df, icao := d.icao, squawk := d.squawk, capability := d.capability, altitude := d.altitude }
+
+def extOfT (d : T.Ext) : Ext :=
+  { df := d.df, icao := d.icao, capability := d.capability, messageType := d.message_type, ais := d.ais,
+    category := d.category, cpr := d.cpr, groundMovement := d.ground_movement, grspeed := d.grspeed, track := d.track,
+    trackSource := d.track_source, heading := d.heading, headingSource := d.heading_source, altitude := d.altitude,
+    altitudeSource := d.altitude_source, altitudeDelta := d.altitude_delta, altitudeGnss := d.altitude_gnss,
+    vrate := d.vrate, vrateSource := d.vrate_source, surveillanceStatus := d.surveillance_status,
+    adsbVersion := d.adsb_version }
+
+theorem srtToT_ofT (d : T.Srt) : srtToT (srtOfT d) = d := rfl
+theorem extToT_ofT (d : T.Ext) : extToT (extOfT d) = d := rfl
+theorem srtOfT_toT (d : Srt) : srtOfT (srtToT d) = d := rfl
+theorem extOfT_toT (d : Ext) : extOfT (extToT d) = d := rfl
+
+/-- of the Comm-B record only the address reaches the table (`from_mds.rs`) -/
+def dfOfT : T.DF → DFRec
+  | .SRT v => .srt (srtOfT v)
+  | .EXT v => .ext (extOfT v)
+  | .MDS v => .mds v.icao
+
+theorem srt_from_message_sim (m : Msg) : T.Srt.from_message m = some (srtToT (Srt.fromMessage m)) := by
+  unfold T.Srt.from_message
+  show some (T.Srt.update T.Srt.new m) = _
+  rw [srt_update_sim]
+
+theorem ext_from_message_sim (te : TEnv) (m : Msg) (L : Long m) :
+    T.Ext.from_message te m = some (extToT (Ext.fromMessage (envOfT te) m)) := by
+  unfold T.Ext.from_message
+  show some (T.Ext.update te T.Ext.new m) = _
+  rw [ext_update_sim te m L]
+
+-- Mds::update: only the first block writes the address
+theorem mds_step0_icao (self : T.Mds) (m : Msg) :
+    (T.Mds.update.step0 self m).icao = (match getDownlinkFormat m with | some df => getIcao m df | none => self.icao) := by
+  unfold T.Mds.update.step0
+  cases getDownlinkFormat m <;> rfl
+theorem mds_step2_icao (self : T.Mds) (m : Msg) (b : Nat × Nat) : (T.Mds.update.step2 self m b).icao = self.icao := by
+  unfold T.Mds.update.step2; split <;> rfl
+theorem mds_step3_icao (self : T.Mds) (m : Msg) (b : Nat × Nat) : (T.Mds.update.step3 self m b).icao = self.icao := by
+  unfold T.Mds.update.step3; split <;> rfl
+theorem mds_step4_icao (self : T.Mds) (m : Msg) (b : Nat × Nat) : (T.Mds.update.step4 self m b).2.icao = self.icao := by
+  unfold T.Mds.update.step4; split
+  · cases T.is_bds_1_7 m <;> rfl
+  · rfl
+theorem mds_step5_icao (self : T.Mds) (m : Msg) (b : Nat × Nat) : (T.Mds.update.step5 self m b).2.icao = self.icao := by
+  unfold T.Mds.update.step5; split
+  · cases T.is_bds_4_0 m <;> rfl
+  · rfl
+theorem mds_step6_icao (self : T.Mds) (m : Msg) (b : Nat × Nat) : (T.Mds.update.step6 self m b).2.icao = self.icao := by
+  unfold T.Mds.update.step6; split
+  · cases T.is_bds_5_0 m <;> rfl
+  · rfl
+theorem mds_step7_icao (self : T.Mds) (m : Msg) (b : Nat × Nat) : (T.Mds.update.step7 self m b).2.icao = self.icao := by
+  unfold T.Mds.update.step7; split
+  · cases h : T.is_bds_6_0 m with
+    | none => rfl
+    | some r => simp only; split <;> rfl
+  · rfl
+theorem mds_step8_icao (self : T.Mds) (m : Msg) (b : Nat × Nat) : (T.Mds.update.step8 self m b).2.icao = self.icao := by
+  unfold T.Mds.update.step8; split
+  · cases h : T.is_bds_4_4 m with
+    | none => rfl
+    | some r => simp only; split <;> rfl
+  · rfl
+theorem mds_step9_icao (self : T.Mds) (m : Msg) (b : Nat × Nat) : (T.Mds.update.step9 self m b).icao = self.icao := by
+  unfold T.Mds.update.step9; split <;> rfl
+
+theorem mds_new_icao : T.Mds.new.icao = none := rfl
+
+theorem mds_update_icao (self : T.Mds) (m : Msg) :
+    (T.Mds.update self m).icao = (match getDownlinkFormat m with | some df => getIcao m df | none => self.icao) := by
+  unfold T.Mds.update
+  simp only [mds_step9_icao, mds_step8_icao, mds_step7_icao, mds_step6_icao, mds_step5_icao, mds_step4_icao,
+    mds_step3_icao, mds_step2_icao, mds_step0_icao]
+
+theorem mds_from_message_icao (m : Msg) :
+    (T.Mds.from_message m).map (·.icao) = some (match getDownlinkFormat m with | some df => getIcao m df | none => none) := by
+  unfold T.Mds.from_message
+  simp only [Option.map_some, mds_update_icao]
+  rfl
+
+/-- `DF::from_message` builds the model's record (17 needs a 112-bit frame for the casts of the velocity fields) -/
+theorem df_from_message_sim (te : TEnv) (m : Msg) (hL : getDownlinkFormat m = some 17 → Long m) :
+    (T.DF.from_message te m).map dfOfT = DFRec.fromMessage (envOfT te) m := by
+  unfold T.DF.from_message DFRec.fromMessage
+  cases hdf : getDownlinkFormat m with
+  | none => rfl
+  | some v =>
+    simp only
+    by_cases h1 : v ≤ 16
+    · have : 0 ≤ v ∧ v ≤ 16 := ⟨by omega, h1⟩
+      simp [this, h1, srt_from_message_sim, dfOfT, srtOfT_toT]
+    by_cases h2 : v = 17
+    · subst h2
+      have L := hL hdf
+      simp [ext_from_message_sim te m L, dfOfT, extOfT_toT]
+    by_cases h3 : v = 20 ∨ v = 21
+    · have n1 : ¬ (0 ≤ v ∧ v ≤ 16) := fun h => h1 h.2
+      have hi := mds_from_message_icao m
+      rw [hdf] at hi
+      cases hm : T.Mds.from_message m with
+      | none => rw [hm] at hi; simp at hi
+      | some d =>
+        rw [hm] at hi
+        simp only [Option.map_some, Option.some.injEq] at hi
+        simp [n1, h2, h3, h1, dfOfT, hi]
+    · have n1 : ¬ (0 ≤ v ∧ v ≤ 16) := fun h => h1 h.2
+      simp [n1, h1, h2, h3, dfOfT, srtOfT, T.Srt.new]
+
+/-- `impl UpdateFromDownlink<DF> for Plane` (the default update path) -/
+theorem update_from_downlink_DF_sim (now : Int) (te : TEnv) (p : Plane) (d : T.DF) :
+    T.Plane.update_from_downlink_DF now te (planeToT p) d = planeToT (p.updateFromDownlink (envOfT te) now (dfOfT d)) := by
+  have stamp : ({ planeToT p with timestamp := now } : T.Plane) = planeToT { p with timestamp := now } := rfl
+  unfold T.Plane.update_from_downlink_DF Plane.updateFromDownlink
+  cases d with
+  | SRT v =>
+    simp only [dfOfT, stamp]
+    rw [← srtToT_ofT v, update_from_downlink_Srt_sim]; rfl
+  | EXT v =>
+    simp only [dfOfT, stamp]
+    rw [← extToT_ofT v, update_from_downlink_Ext_sim]; rfl
+  | MDS v =>
+    simp only [dfOfT, stamp]
+    rw [update_from_downlink_Mds_sim]
+
+/-- `Plane::from_downlink` (every row is created through it) -/
+theorem from_downlink_sim (now : Int) (te : TEnv) (d : T.DF) (icao : Nat) :
+    T.Plane.from_downlink now te d icao = planeToT (Plane.fromDownlink (envOfT te) now (dfOfT d) icao) := by
+  unfold T.Plane.from_downlink Plane.fromDownlink
+  have e : ({ ({ T.Plane.new now with icao := icao } : T.Plane) with reg := (icaoToCountry icao).2 } : T.Plane)
+      = planeToT { Plane.new now with icao := icao, reg := (icaoToCountry icao).2 } := rfl
+  simp only [e]
+  exact update_from_downlink_DF_sim now te _ d
+
 -- planes.rs: sort_printed_planes ----------------------------------------------------------------------------
 /-- every `-o` letter compares two rows as the model's `sortKey` does ('C', which no property names, for
     categories below 2^20: the code negates an `i32`) -/
